@@ -105,19 +105,26 @@ def flag_discipline(ctx, b, ty, trusted):
             if l in seen_locals:
                 continue
             seen_locals.add(l)
+            still_false = S.truth_edges(b, lambda c, r_, l=l: c[0] == "local" and c[1] == l, False)
+
+            def keeps(x, at, depth=0, l=l):
+                """with the flag already true, the value x (assigned at block `at`) is true again"""
+                if (x[0] == "local" and x[1] == l) or (x[0] == "const" and x[1] == 1):
+                    return True
+                if still_false and b.must_pass_edges(at, still_false):
+                    return True         # only evaluated while the flag is still false
+                if x[0] == "bin" and x[1] == "BitOr":
+                    return keeps(x[2], at, depth + 1) or keeps(x[3], at, depth + 1)
+                if x[0] == "call" and re.search(r"BitOr(Assign)?>?::bitor(_assign)?$", mir.strip_generics(x[1])):
+                    return any(keeps(y, at, depth + 1) for y in x[2])
+                if x[0] == "local" and depth < 4:
+                    ds = S.defs_exprs(b, x[1])
+                    return bool(ds) and all(keeps(y, w2.bb, depth + 1) for w2, y in ds)
+                return False
             for w, x in S.defs_exprs(b, l):
                 if w.bb not in loops:
                     continue
-                acc = False
-                if x[0] == "bin" and x[1] == "BitOr" and any(y[0] == "local" and y[1] == l for y in (x[2], x[3])):
-                    acc = True
-                elif x[0] == "call" and re.search(r"BitOr(Assign)?>?::bitor(_assign)?$", mir.strip_generics(x[1])) and any(y[0] == "local" and y[1] == l for y in x[2]):
-                    acc = True
-                elif (x[0] == "const" and x[1] == 1) or (x[0] == "local" and x[1] == l):
-                    acc = True
-                else:
-                    still_false = S.truth_edges(b, lambda c, r_: c[0] == "local" and c[1] == l, False)
-                    acc = bool(still_false) and b.must_pass_edges(w.bb, still_false)
+                acc = keeps(x, w.bb)
                 ctx.ob("changed-flag", "%s: flag written in a loop accumulates" % ty, acc, w.loc(),
                        "`changed` is %s inside the loop: %s" % ("accumulated" if acc else "overwritten", render(x)[:120]))
     # discarded mutator results
